@@ -38,6 +38,7 @@ def shards(tier, seed):
     for i in range(2 if tier == "quick" else 8):
         out.append({"name": f"same-block-{i}", "kind": "sameblock", "tier": tier, "seed": seed})
     out.append({"name": "many-concurrent-streams", "kind": "manystreams", "tier": tier, "seed": seed})
+    out.append({"name": "long-lossy-session", "kind": "soak", "tier": tier, "seed": seed})
     n_rand = 6 if tier == "quick" else 192
     for i in range(n_rand):
         out.append({"name": f"random-{i}", "kind": "random", "i": i, "tier": tier, "seed": seed})
@@ -519,6 +520,46 @@ def manystreams(spec, acc):
         acc.cover("concurrent_streams", len(msgs))
 
 
+def soak(spec, acc):
+    """One decoder through a long session on a lossy bus: thousands of long messages that are never completed (their
+    last frames are lost; the next first frame of the stream starts over), on a handful of streams. Every few hundred of
+    them two complete messages arrive on other streams with their frames strictly interleaved: nothing of theirs is lost,
+    so both come back - however much has been abandoned before. The volume abandoned is at least 330 KB and at least twice
+    any byte count the code under test mentions (a budget, a cache size)."""
+    rng = gen.rng_for(spec["seed"], ID, spec["name"])
+    quick = spec["tier"] == "quick"
+    big = max(gen.harvested_in(20_000, 8_000_000) or [0])
+    n_bytes = max(330_000, min(2 * big + 10_000, 1_200_000 if quick else 6_000_000))
+    if not quick:
+        n_bytes = max(n_bytes, 1_500_000)
+    events = []
+    abandoned = stored = probes = 0
+    j = 0
+    while stored < n_bytes:
+        # first one talker whose messages keep being cut short, later five of them in turn
+        which = 0 if stored < n_bytes * 0.6 else j % 5
+        src = (3, 35, 30, 77, 203)[which]
+        m = Msg((130816, src, 255, 10 + which), j, rng.choice([223, 223, 223, 118, 60]), seq=j if which == 0 else j // 5)
+        keep = m.nframes - 1 if j % 3 else rng.randint(1, m.nframes - 1)
+        events += [(m, k) for k in range(keep)]
+        stored += 6 + 7 * (keep - 1)
+        abandoned += 1
+        j += 1
+        if abandoned % 400 == 0 or stored >= n_bytes:
+            b = Msg((130816, 1, 255, 1), j, (47, 223, 118)[probes % 3], seq=j)
+            c = Msg((126720, 2, 9, 2), j, (30, 223, 60)[probes % 3], seq=j + 3)
+            d = Msg((130816, 2, 255, 3), j, (20, 223, 47)[probes % 3], seq=j + 5)
+            trio = (b, c, d) if probes % 2 else (b, c)
+            for k in range(max(x.nframes for x in trio)):
+                events += [(x, k) for x in trio if k < x.nframes]
+            probes += 1
+    run_history(events, acc, f"long lossy session: {abandoned} abandoned messages ({stored} bytes), {probes} interleaved probes", True)
+    acc.count("long_lossy_sessions")
+    acc.count("messages_abandoned_in_long_sessions", abandoned)
+    acc.count("bytes_abandoned_in_long_sessions", stored)
+    acc.count("interleaved_probes_in_long_sessions", probes)
+
+
 def run_shard(spec, acc):
     dbx = refdb.db()
     # the fallback definitions must be what HEAD selects, otherwise payloads are not observable
@@ -527,7 +568,7 @@ def run_shard(spec, acc):
         if d is None or not d.fallback:
             acc.inconclusive_because(f"HEAD does not select the fallback definition of PGN {pgn}")
             return
-    {"enum1": enum1, "enum2": enum2, "enum3": enum3, "random": random_histories, "sameblock": sameblock, "manystreams": manystreams}[spec["kind"]](spec, acc)
+    {"enum1": enum1, "enum2": enum2, "enum3": enum3, "random": random_histories, "sameblock": sameblock, "manystreams": manystreams, "soak": soak}[spec["kind"]](spec, acc)
 
 
 def replay(w, acc):
